@@ -429,7 +429,29 @@ def _operator_after_comment_group(text):
     return any(walk(s) for s in stmts)
 
 
+def _sp_makes_hash_comment(f):
+    """use_space_around_operators put a blank behind the operator '#': in the INPUT some Operator token ends in '#' and is
+    directly followed by something that is no white space, and the OUTPUT re-lexes with a '# ' comment at a place where the
+    input has none (finding C06-hash-operator-becomes-comment seen from C10: the normal forms are read off the re-lexed
+    output, in which the rest of the line is a comment)"""
+    from sqlparse import lexer, tokens as T
+    text = ''.join(map(chr, f.get('input', [])))
+    out = f.get('output') or ''
+    try:
+        toks = list(lexer.tokenize(text))
+        otoks = list(lexer.tokenize(out))
+    except Exception:  # noqa
+        return False
+    glued = any(tt in T.Operator and v.endswith('#') and i + 1 < len(toks) and not toks[i + 1][1][:1].isspace()
+                for i, (tt, v) in enumerate(toks))
+    n_in = sum(1 for tt, v in toks if tt in T.Comment and v.startswith('#'))
+    n_out = sum(1 for tt, v in otoks if tt in T.Comment and v.startswith('#'))
+    return glued and n_out > n_in
+
+
 CLASS_PRED = {
+    'sp-hash-operator-becomes-comment': lambda f: str(f.get('kind', '')).startswith(('sp:', 'not_fixed_point:sp'))
+    and _sp_makes_hash_comment(f),
     # use_space_around_operators, text level: the comment's Comment group takes the line break that follows it; in the
     # re-parsed output the operator's previous sibling is that group, not a whitespace token: a blank is added on the 2nd run
     'sp-not-fixed-point-after-comment': lambda f: f.get('kind') == 'not_fixed_point:sp'
